@@ -11,7 +11,7 @@ LEVEL = "exploration"
 TECHNIQUE = ("grammar-based generation of connection-path strings and of single-edit corruptions in the four listed rejection classes; oracle = "
              "reference grammar + reference route encoder (spelling-equivalence follows) and the route seen by the reference target in Forward Open / Unconnected Send")
 RULE = ("string = host[:tcp port] (sep port-id sep link)* with sep drawn per position from '/', '\\\\', ',', host = IPv4 literal or host name, tcp port "
-        "1..65534, port-id = documented alias or number 1-14, link = slot 0..255 or dotted quad, 0-4 hops, plus the bare-address and address/slot "
+        "1..65534, port-id = documented alias or number 1-65535 (15 and above as extended port identifier), link = slot 0..255 or dotted quad, 0-4 hops, plus the bare-address and address/slot "
         "shortcuts (auto_slot); corruptions: drop/duplicate one segment (odd count), misspelt port name, link 256..999 / malformed quad, tcp port "
         "0 / 65535 / > 65535 / negative / non-numeric; non-trivial = >= 1 hop, or a TCP port, or a corruption; distinct = the string + auto_slot flag")
 LEVEL_TEXT = ("Each in-grammar string must give the reference (host, port, route bytes) - hence all spellings of one route give identical bytes - and the "
@@ -101,7 +101,8 @@ def render(host, port, hops, seps):
 
 ipv4 = st.lists(st.integers(0, 255), min_size=4, max_size=4).map(lambda p: ".".join(map(str, p)))
 hosts = st.one_of(ipv4, st.sampled_from(["plc1", "line-3.plant.example", "localhost", "a"]))
-port_ids = st.one_of(st.sampled_from(sorted(RP.PORT_NAMES)), st.integers(1, 14).map(str))
+port_ids = st.one_of(st.sampled_from(sorted(RP.PORT_NAMES)), st.integers(1, 14).map(str), st.integers(1, 14).map(str),
+                     st.sampled_from(["15", "16", "17", "32", "255", "256", "65535"]), st.integers(15, 65535).map(str))
 links = st.one_of(st.integers(0, 255).map(str), ipv4, st.sampled_from(["0", "1", "9", "10", "255", "1.2.3.4", "10.10.10.10", "255.255.255.255"]))
 tcp_ports = st.one_of(st.none(), st.none(), st.integers(1, 65534), st.sampled_from([1, 44818, 65534]))
 
@@ -129,7 +130,7 @@ def corrupt_strings(draw):
     hops = [[draw(port_ids), draw(links)] for _ in range(nseg)]
     seps = draw(st.lists(st.sampled_from(SEPS), min_size=1, max_size=8))
     port = draw(tcp_ports)
-    kind = draw(st.sampled_from(["odd-drop", "odd-dup", "port-name", "link-range", "link-quad", "tcp-port"]))
+    kind = draw(st.sampled_from(["odd-drop", "odd-dup", "port-name", "link-range", "link-quad", "tcp-port", "tcp-port", "digits"]))
     flat = [x for h in hops for x in h]
     if kind == "odd-drop":
         i = draw(st.integers(0, len(flat) - 1))
@@ -145,11 +146,16 @@ def corrupt_strings(draw):
     elif kind == "link-range":
         i = draw(st.integers(0, nseg - 1)) * 2 + 1
         flat[i] = str(draw(st.one_of(st.integers(256, 999), st.sampled_from([256, 257, 999]))))
+    elif kind == "digits":
+        # numbers of the grammar are ASCII digits: other scripts' digits, signs, underscores or blanks do not spell a slot or a port
+        i = draw(st.integers(0, len(flat) - 1))
+        flat[i] = draw(st.sampled_from(["\u0663", "\uff11", "\u0967", "+1", "1_0", " 1", "1 ", "\u00b2"]))
     elif kind == "link-quad":
         i = draw(st.integers(0, nseg - 1)) * 2 + 1
         flat[i] = draw(st.sampled_from(["1.2.3", "1.2.3.256", "1.2.3.4.5", "a.b.c.d", "1..2.3", "300.1.1.1", "slot1"]))
     else:
-        port = draw(st.sampled_from(["0", "65535", "65536", "70000", "-1", "abc", "", "4a", "448:18", ":44818", "44818:", "1:2:3", ":"]))
+        port = draw(st.sampled_from(["0", "65535", "65536", "70000", "-1", "abc", "", "4a", "448:18", ":44818", "44818:", "1:2:3", ":",
+                                     "4_4818", "+44818", " 44818", "44818 ", "44818\t", "\u0664\u0664\u0668\u0661\u0668", "\uff14\uff14\uff18\uff11\uff18", "4 4818", "0x10", "1e3"]))
     s = host + (f":{port}" if port is not None else "")
     for k, seg in enumerate(flat):
         s += seps[k % len(seps)] + str(seg)
